@@ -190,9 +190,13 @@ def main(argv):
         for i in range(shards):
             tasks.append((prop, legobj.name, i, shards, seed * 1000 + i, n, tier, budget))
     jobs = int(os.environ.get("GFV_JOBS", "0") or 0) or min(16, os.cpu_count() or 1)
-    jobs = max(1, min(jobs, len(tasks)))
+    jobs = max(1, min(jobs, max(1, len(tasks))))
     results = []
     harness = []
+    legs_by_name = _legs(mod)
+    # legs that start processes of their own cannot run inside (daemonic) pool workers
+    main_tasks = [t for t in tasks if getattr(legs_by_name[t[1]], "run_in_main", False)]
+    tasks = [t for t in tasks if t not in main_tasks]
     if tasks:
         mpctx = multiprocessing.get_context("fork")
         with mpctx.Pool(jobs, maxtasksperchild=1) as pool:
@@ -201,6 +205,12 @@ def main(argv):
                     results.append(res)
                 else:
                     harness.append(res)
+    for t in main_tasks:
+        status, res = _task(t)
+        if status == "ok":
+            results.append(res)
+        else:
+            harness.append(res)
     if harness:
         print("HARNESS-ERROR (%d shard(s)); first:\n%s" % (len(harness), harness[0][:4000]))
         return 2
